@@ -41,8 +41,46 @@ PROPS["C13"] = {
 
 PROPS["C16"] = {
     "families": ["session"],
-    "level_text": "(being written)",
-    "level_note": "(being written)",
-    "rule": "",
-    "assumptions": [],
+    "level_text": (
+        "Proof on a model of session.go and server.go:131-222 in which the http.ResponseWriter is the environment: the ordered log of "
+        "Header-set / Write / Flush / WriteHeader calls made on it, driven by an arbitrary script of verdicts (one per Write or Flush: ok, or "
+        "accept k bytes and fail with e / flush fails with e). Session.Send is doUpgrade + the existing model of Message.WriteTo (write_to, "
+        "write_to_accounting of C15 are reused), Session.Flush skips the second flush right after an upgrade, getResponseWriter walks writer "
+        "shapes {FlushError, Flush, Unwrap} in the code's type-switch order. For ALL Send/Flush sequences, messages and scripts Coq theorems "
+        "state: no Write before 'Content-Type: text/event-stream' was set and then flushed successfully, and no header set after that "
+        "(C16_upgrade_first_once, _before_every_write, _once); per call the accepted bytes of a Send are the message's encoding when it "
+        "returned nil and a prefix of it otherwise, so up to the first failing call the body is the concatenation of the encodings (C16_body, "
+        "C16_body_concat); a Flush that returned nil leaves a successful writer flush after the last Write (C16_flush); every call returns "
+        "the first error the writer answered during it (C16_first_error); ServeHTTP subscribes with the header's first value when present, "
+        "non-empty and single-line (else unset) and OnSession's topics (DefaultTopic if none), performs no writer call of its own when "
+        "OnSession rejects, and answers WriteHeader 500 when no writer in the Unwrap chain can flush or the provider returns an error "
+        "(C16_serve, C16_serve_session, C16_response_writer_*). Model = code is checked on every run on a recording fault-injecting "
+        "ResponseWriter (all eight method sets, nested Unwrap chains) with a failure injected at the k-th writer operation for every k, and "
+        "through the real Server.ServeHTTP with a recording Provider; a direct oracle written from the property text re-checks the observed logs."),
+    "level_note": (
+        "Trusted: Coq kernel; the Gallina model (theories/Session.v) is hand-written after session.go/server.go and tied to them by the "
+        "differential harness, not by a verified translation; constants (header names/values, DefaultTopic, the 500 of both http.Error "
+        "replies and the 'unsupported' text) are re-read from /repo and net/http/status.go on every run. net/http itself is NOT modelled: "
+        "the theorems are about the calls made on the http.ResponseWriter interface, for every behaviour of that writer; what a real "
+        "net/http server does with them (status line once, chunking, buffering, a header set after the first flush being ignored) is outside. "
+        "A writer reached through plain http.Flusher cannot report flush failures (Flush() has no result): for such writers 'the first flush "
+        "error is returned' is vacuous and the harness records those flushes as successful. http.Error's own three calls are mirrored from "
+        "the Go toolchain in use (one Content-Type set, WriteHeader, one Write). A header assignment cannot be intercepted on a real "
+        "http.Header map: the harness logs 'Header() was called' with the Content-Type found at the next call, consecutive Header() calls "
+        "coalesce. ServeHTTP appending its http.Error text to a stream that already started is mirrored by the model but is outside the "
+        "property's statement; logging (Logger) is not modelled. Message encodings come from the C15/C02 model of WriteTo."),
+    "rule": (
+        "Session: every call sequence of length <= 3 (quick) / 4 (thorough) over {Send data, Send id+type+retry+comment+2-line data, Send "
+        "empty message, Flush} on 8 flushing writer shapes (FlushError, Flusher, both, wrapped 1-2 levels, outer Flusher hiding inner "
+        "FlushError) with no failure and with a failure at the k-th writer operation for EVERY k (accepting 0 / 1 / all bytes), some with a "
+        "second later failure; seeded random messages, sequences <= 8 calls and scripts with several failures; writers that cannot flush. "
+        "ServeHTTP: product of 11 writer shapes x 9 Last-Event-Id header variants (absent, empty, plain, with LF, with CR, several, empty "
+        "first, NUL/space) x 8 OnSession variants (nil, topics, empty topics, reject with/without own status, accept with own status) x 6 "
+        "provider behaviours (nil / error before sending / after sending / flush only) x failure positions (sampled in the quick tier), plus "
+        "seeded random requests. non-trivial = distinct inputs (every one runs against the real Session / Server)"),
+    "assumptions": [
+        "errors returned by the writer are non-nil values (script_ok); messages have an int64 Retry (WriteTo does not panic: retry_digits_fit)",
+        "the Unwrap chain of the ResponseWriter is finite",
+        "what net/http does with the recorded calls is outside the model",
+    ],
 }
